@@ -248,6 +248,15 @@ func (e *FEnc) call(st *State, in ssa.Instruction, cc *ssa.CallCommon, res ssa.V
 	pure := fc != nil && fc.Pure
 	var result *Val
 	if pure && sig != nil && sig.Results().Len() > 0 {
+		// a pure repository function is a function of the CONTENT of the structures it is handed by
+		// pointer (not of the pointer): pass the loaded value
+		if fn != nil && e.eng.isRepoFn(fn) {
+			np := make([]*Val, len(pvals))
+			for i, a := range pvals {
+				np[i] = e.pureArg(st, a)
+			}
+			pvals = np
+		}
 		var ts []string
 		for _, a := range pvals {
 			ts = append(ts, e.term(a))
@@ -491,4 +500,17 @@ func (e *FEnc) copyB(st *State, in ssa.Instruction, cc *ssa.CallCommon, args []*
 	if res != nil {
 		e.define(res, e.intVal(n))
 	}
+}
+
+// pureArg: pointer-to-struct arguments of pure repository functions are replaced by the pointed-to value.
+func (e *FEnc) pureArg(st *State, a *Val) *Val {
+	if a == nil || a.Ty == nil {
+		return a
+	}
+	if pt, ok := a.Ty.Underlying().(*types.Pointer); ok {
+		if structOf(pt.Elem()) != nil && st != nil {
+			return e.load(st, e.ptrOf(a))
+		}
+	}
+	return a
 }
